@@ -17,7 +17,7 @@ FOCUS = {
     "C02": dict(solo=True, branching=True, modes=["solve"], ca=None, reorder=True, allcfg=True),
     "C03": dict(modes=["min", "max"], ca=None, allvars=True),
     "C04": dict(modes=["solve", "solve", "min"], ca=None, flavours=["circuit", "alias", "alias", "int", "bool"]),
-    "C07": dict(solo=True, modes=["solve"], ca=None, flavours=["int", "int", "bool", "alias"]),
+    "C07": dict(solo=True, modes=["solve", "solve", "min", "max"], ca=None, flavours=["int", "int", "bool", "alias"]),
     "C08": dict(modes=["solve", "solve", "min", "max"], ca=0, flavours=["int", "int", "bool", "circuit", "alias"]),
     "C09": dict(branching=True, modes=["solve", "solve", "min"], ca=None, allcfg=True),
     "C10": dict(modes=["solve", "solve", "min", "max"], ca=1),
